@@ -240,7 +240,7 @@ fn('Function.prototype', 'bind', 1, "var b = F.call(%s, {k:1}, 2); typeof b + '|
 # 15.4.4: the Array prototype object is itself an array; [[Class]] "Array"; length +0 (15.4.5.2 attributes)
 ctor('Array', 1, 'Array', 'Object.prototype',
      "var a = new F(3); a.length + '|' + F(1, 2).join('-') + '|' + CLS(a) + '|' + new F(7, 8).length", '3|1-2|Array|2',
-     '15.4.3 / 15.4.4')
+     '15.4.3 / 15.4.4', protoCall="'[' + F.join() + ']' + F.length", protoExp='[]0')
 value('Array.prototype', 'length', 0, '15.4.4 / 15.4.5.2', attrs='TFF')
 fn('Array', 'isArray', 1, "F([]) + '|' + F({length:0})", 'true|false', '15.4.3.2')
 AP = 'Array.prototype'
@@ -276,7 +276,7 @@ fn(AP, 'reduceRight', 1, RDP, '3-2-1', '15.4.4.22')
 # ---------------------------------------------------------------------------------------------
 # 15.5.4: the String prototype object is itself a String object ([[Class]] "String") whose value is ""
 ctor('String', 1, 'String', 'Object.prototype', "F(12) + '|' + typeof F(1) + '|' + typeof new F(1) + '|' + F()",
-     '12|string|object|', '15.5.3 / 15.5.4')
+     '12|string|object|', '15.5.3 / 15.5.4', protoCall="'[' + F.valueOf() + ']'", protoExp='[]')
 const('String.prototype', 'length', 0, '15.5.4 / 15.5.5.1')
 fn('String', 'fromCharCode', 1, "F(97, 98)", 'ab', '15.5.3.2')
 SP = 'String.prototype'
@@ -308,7 +308,7 @@ fn(SP, 'substr', 2, "F.call('abcdef', 3, 2)", 'de', 'B.2.3', grp='annexB')
 # 15.6 Boolean
 # ---------------------------------------------------------------------------------------------
 ctor('Boolean', 1, 'Boolean', 'Object.prototype', "F(0) + '|' + typeof F(1) + '|' + typeof new F(1) + '|' + CLS(new F(1))",
-     'false|boolean|object|Boolean', '15.6.3 / 15.6.4')
+     'false|boolean|object|Boolean', '15.6.3 / 15.6.4', protoCall="String(F.valueOf())", protoExp='false')
 BP = "F.call(true) + '|' + typeof F.call(new Boolean(false)) + '|' + T(function(){ F.call({}) })"
 fn('Boolean.prototype', 'toString', 0, BP, 'true|string|TypeError', '15.6.4.2')
 fn('Boolean.prototype', 'valueOf', 0, BP, 'true|boolean|TypeError', '15.6.4.3')
@@ -317,7 +317,7 @@ fn('Boolean.prototype', 'valueOf', 0, BP, 'true|boolean|TypeError', '15.6.4.3')
 # 15.7 Number
 # ---------------------------------------------------------------------------------------------
 ctor('Number', 1, 'Number', 'Object.prototype', "S(F('12')) + '|' + typeof F('1') + '|' + typeof new F(1) + '|' + S(F())",
-     '12|number|object|0', '15.7.3 / 15.7.4')
+     '12|number|object|0', '15.7.3 / 15.7.4', protoCall="S(F.valueOf())", protoExp='0')
 const('Number', 'MAX_VALUE', V('NumV(Canon(FALSE, BnSub(BnShl(<<1>>, 53), <<1>>), 971))'), '15.7.3.2')
 const('Number', 'MIN_VALUE', V('NumV(Canon(FALSE, <<1>>, -1074))'), '15.7.3.3')
 const('Number', 'NaN', V('NumV(NaN)'), '15.7.3.4')
@@ -395,7 +395,9 @@ assert datetime.datetime(1999, 12, 31).weekday() == 4 and datetime.datetime(2000
 T1 = T0 - 9
 ctor('Date', 7, 'Date', 'Object.prototype',
      "typeof F() + '|' + S(new F(5).getTime()) + '|' + CLS(new F(5)) + '|' + S(new F(1999, 11, 31, 20, 47, 38, 9).getTime())",
-     'string|5|Date|%d' % loc(1999, 11, 31, 20, 47, 38, 9), '15.9.4 / 15.9.5')
+     'string|5|Date|%d' % loc(1999, 11, 31, 20, 47, 38, 9), '15.9.4 / 15.9.5',
+     # 15.9.5: the Date prototype object is itself a Date object whose time value is NaN (finding D12g of property C12)
+     protoCall="S(F.getTime())", protoExp=dev('D12g_date_prototype_time_value_is_zero', val('0'), val('NaN')))
 fn('Date', 'parse', 1, "S(F('1999-12-31T20:47:38.009Z', 5))", str(T0), '15.9.4.2')
 fn('Date', 'UTC', 7, "S(F(1999, 11, 31, 20, 47, 38, 9)) + '|' + S(F(1999, 11))", '%d|%d' % (T0, utc(1999, 11, 1)), '15.9.4.3')
 fn('Date', 'now', 0, "typeof F(0, 0) + '|' + (F(0, 0) >= %d)" % T0, 'number|true', '15.9.4.4')
@@ -495,7 +497,7 @@ def errcall(name):
 
 c, e = errcall('Error')
 # 15.11.4: the Error prototype object is itself an Error object ([[Class]] "Error")
-ctor('Error', 1, 'Error', 'Object.prototype', c, e, '15.11.3 / 15.11.4')
+ctor('Error', 1, 'Error', 'Object.prototype', c, e, '15.11.3 / 15.11.4', protoCall="F.toString()", protoExp='Error')
 value('Error.prototype', 'name', 'Error', '15.11.4.2')
 value('Error.prototype', 'message', '', '15.11.4.3')
 fn('Error.prototype', 'toString', 0,
